@@ -160,6 +160,8 @@ end
 
 instance : Cens Float := ⟨fun f b y c => backwardCensored f b y c⟩
 
+def fmax (a b : Float) : Float := if a < b then b else a
+
 instance : Cens EF := ⟨fun f b y c =>
   let te : Float := match f c with
     | some t => if t.v.isNaN then 0.0 else t.e
@@ -167,19 +169,18 @@ instance : Cens EF := ⟨fun f b y c =>
   let yc : EF := match f c with
     | none => y
     | some t => if t.v.isNaN then y else maxv y t
-  let ye : Float := if yc.e < te then te else yc.e
+  let ye : Float := fmax yc.e te
   let yc' : EF := ⟨yc.v, ye⟩
-  (b yc').map fun r =>
+  (b yc').map fun (r : EF) =>
     -- `backward` may branch on its argument (sign, `y >= EPS`): probe both ends of the argument's error interval
     let probe (d : Float) : Float := match b ⟨yc.v + d, 0.0⟩ with
       | some r' => if r'.v.isNaN then 0.0 else (r'.v - r.v).abs + r'.e
       | none => 0.0
     let p1 : Float := probe ye
     let p2 : Float := probe (-ye)
-    let re1 : Float := if r.e < p1 then p1 else r.e
-    let re : Float := if re1 < p2 then p2 else re1
-    let m := maxv r c
-    ⟨m.v, if m.e < re then re else m.e⟩⟩
+    let re : Float := fmax (fmax r.e p1) p2
+    let m : EF := maxv r c
+    ⟨m.v, fmax m.e re⟩⟩
 
 def optF (x : Float) : Option Float := if x.isNaN then none else some x
 def optEF (x : Float) : Option EF := if x.isNaN then none else some (EF.ofF x)
